@@ -404,8 +404,13 @@ impl SimTerm {
                     CallKind::Flush => String::new(),
                 };
                 if let CallKind::WriteStr(t) | CallKind::WriteLine(t) = &kind {
-                    if t.contains('\t') && s.tab_seen.is_none() {
-                        s.tab_seen = Some(t.clone());
+                    if t.contains('\t') {
+                        if s.tab_seen.is_none() {
+                            s.tab_seen = Some(t.clone());
+                        }
+                        // tab stops are not modelled by the grid: the cross-check is meaningless
+                        // from here on (C16 reports the TAB itself)
+                        s.vt = None;
                     }
                 }
                 s.grid.feed(&bytes);
